@@ -1,11 +1,11 @@
 CONSTANTS
   N = 4
-  Plain = 2
+  Plain = 1
+  Near = 2
   Alike = 3
   Site <- SiteSpec
 SPECIFICATION Spec
 INVARIANT TypeOK
-INVARIANT RelationsOK
 INVARIANT StableSortOK
 INVARIANT SortedIsEnumeration
 INVARIANT OrderIndependence
